@@ -1147,3 +1147,639 @@ Proof.
   - unfold Qm in H1. rewrite zero_ge_app in H1. cbn [zero_ge map fst snd] in H1.
     apply (Q_block_mid _ _ _ _ _ _ (zero_ge E) 0 gm bb _ ltac:(rewrite flat_zero_ge; exact HF) Hbb H0 H1).
 Qed.
+
+(* ------------------------------------------------------------------------------------------ *)
+(* Part E: the layers of the connection task                                                    *)
+(* ------------------------------------------------------------------------------------------ *)
+Section Layers3.
+Variable maxc : N.
+
+Definition SQ3 (a : ast) (vm : vmode) (log new : bytes) (sg : list (N * N * bytes)) : Prop :=
+  Q3 (kst (a_st a)) vm (a_prem a) (a_pad a) (a_raw a) (a_out a) log new sg.
+Definition inv3 (r : rstate) (w : world) (new : bytes) : Prop :=
+  exists vm, SREL (abs (rsp r)) vm /\ SQ3 (abs (rsp r)) vm (wlog w) new (segs w).
+
+Lemma SREL_not_MI a vm : SREL a vm -> vm <> MI.
+Proof. intros [[-> _]|[-> _]]; discriminate. Qed.
+
+Lemma sparse_struct p new dest vm : pinv p -> SREL (abs p) vm ->
+  match sparse maxc p new dest with
+  | StOk p' _ | StErr p' _ _ =>
+      exists vm', SREL (abs p') vm' /\ forall u, VA vm (abs p) (new ++ u) = true -> VA vm' (abs p') u = true
+  | StPanic _ => True
+  end.
+Proof.
+  intros [HRI Hinv] HS. destruct (sparse_refines maxc p new dest HRI) as [Ga _].
+  destruct (sparse maxc p new dest) as [p' s|p' e s|n]; cbn [absres] in Ga; [| |exact I].
+  - apply (struct_law maxc (abs p) new dest (abs p') s vm HS (or_introl Ga)).
+  - apply (struct_law maxc (abs p) new dest (abs p') s vm HS (or_intror (ex_intro _ e Ga))).
+Qed.
+
+Lemma SQ3_sparse p new p' o vm vm' log sg : output_buffer p' = output_buffer p ++ o -> whole o ->
+  (forall u, W (abs p) (new ++ u) = padd (snd (counts o)) (W (abs p') u)) ->
+  SREL (abs p') vm' -> (forall u, VA vm (abs p) (new ++ u) = true -> VA vm' (abs p') u = true) ->
+  SQ3 (abs p) vm log new sg -> SQ3 (abs p') vm' log [] sg.
+Proof.
+  intros Eo Ho L HS' LV H. unfold SQ3 in *. change (a_out (abs p')) with (output_buffer p'). rewrite Eo.
+  apply (Q3_parse (kst (a_st (abs p))) vm (a_prem (abs p)) (a_pad (abs p)) (a_raw (abs p)) (output_buffer p) log new sg
+           (kst (a_st (abs p'))) vm' (a_prem (abs p')) (a_pad (abs p')) (a_raw (abs p')) o Ho); [| |exact H].
+  - intros u. apply (L u).
+  - intros u Hu. split; [apply (LV u), Hu|]. intros Hm. exfalso. apply (SREL_not_MI _ _ HS' Hm).
+Qed.
+
+Lemma stuck_E a : stuck a -> E a [] = false.
+Proof.
+  unfold E. rewrite app_nil_r. intros [H|[[H1 H2]|(H1 & H2 & H3)]].
+  - rewrite H. apply EF_nil.
+  - rewrite EF_prem by exact H1. destruct (N.ltb_spec (len (a_raw a)) (a_prem a)); [reflexivity|lia].
+  - rewrite H1, H2. apply EF_short. exact H3.
+Qed.
+
+(* what one poll_read does to the invariant, at a place where the walk over the bytes held is not complete *)
+Lemma read_inv3 a vm log w0 L pr w1 : t_poll_read L w0 = (pr, w1) -> wlog w0 = log -> SREL a vm ->
+  VA vm a [] = false -> SQ3 a vm log [] (segs w0) ->
+  match pr with
+  | PReady (inl b) => SQ3 a vm log b (segs w1)
+  | PBlock => a_out a = [] -> fst (W a []) = 0 -> False
+  | _ => SQ3 a vm log [] (segs w1)
+  end.
+Proof.
+  intros ER El HS HV HI. pose proof (t_poll_read_segs _ _ _ _ ER) as S2. rewrite El in S2.
+  unfold VA in HV. rewrite app_nil_r in HV.
+  assert (Hvm : VB vm (a_prem a) (a_pad a) (a_raw a) = true -> vm = MI) by (intros V; rewrite V in HV; discriminate HV).
+  destruct pr as [[b|k]| |]; cbv beta iota in S2.
+  - destruct S2 as [(-> & E0 & HF & HS0)|(E0 & ge & gm & bb & rest & n & HF & HS0 & Hbb & Hb & HS' & Hm)].
+    + rewrite HS0 in HI. apply (Q3_skip _ _ _ _ _ _ _ _ E0 _ HF HI).
+    + rewrite HS0 in HI. rewrite HS', Hb.
+      destruct (Q3_read _ _ _ _ _ _ _ E0 ge gm bb rest n HF Hbb Hm Hvm HI) as (vm' & [->|[-> _]] & HQ); [exact HQ|].
+      exfalso. apply (SREL_not_MI _ _ HS eq_refl).
+  - destruct S2 as (E0 & HF & HS0). rewrite HS0 in HI. apply (Q3_skip _ _ _ _ _ _ _ _ E0 _ HF HI).
+  - destruct S2 as (E0 & HF & HS0). rewrite HS0 in HI. apply (Q3_skip _ _ _ _ _ _ _ _ E0 _ HF HI).
+  - intros Ho H0. destruct S2 as (E0 & ge & gm & bb & rest & HF & HS0 & Hbb & Hn). apply Hn.
+    rewrite HS0 in HI. unfold SQ3 in HI. rewrite Ho in HI. unfold W in H0. rewrite app_nil_r in H0.
+    apply (Q3_block _ _ _ _ _ _ E0 ge gm bb rest HF Hbb H0 Hvm HI).
+Qed.
+
+Lemma input_loop_nd3 : forall fuel dest new r w p r' w',
+  pinv (rsp r) -> bytes_ok (remaining w) -> bytes_ok new -> len new <= sinput_space (rsp r) ->
+  stream_buffer (rsp r) = [] -> dest <> Some 0 -> no_fault (wscript w) ->
+  (length (wscript w) + length (remaining w) + 2 <= fuel)%nat ->
+  input_loop maxc fuel dest new r w = (p, r', w') ->
+  inv3 r w new -> wl r w ->
+  p <> PBlock /\ inv3 r' w' [] /\ (ready p -> wl r' w').
+Proof.
+  induction fuel as [|f IH]; intros dest new r w p r' w' Hinv Hrem Hnew Hfit Hsb Hd0 Hnf Hf E (vm & HS & HI) HWL; [lia|].
+  cbn [input_loop] in E.
+  pose proof (sparse_step maxc (rsp r) new dest Hinv Hnew Hfit ltac:(intros _; exact Hsb)) as SS.
+  pose proof (sparse_walk maxc (rsp r) new dest Hinv Hnew) as SW.
+  pose proof (sparse_struct (rsp r) new dest vm Hinv HS) as SV.
+  destruct (sparse maxc (rsp r) new dest) as [p1 s|p1 e s|n] eqn:ESP; [| |contradiction].
+  2:{ injection E as <- <- <-. destruct SW as (o & Eo & Ho & L). destruct SV as (vm1 & HS1 & LV). split; [discriminate|]. split.
+      - exists vm1. cbn [rsp]. split; [exact HS1|]. apply (SQ3_sparse (rsp r) new p1 o vm vm1 _ _ Eo Ho L HS1 LV HI).
+      - intros _. destruct HWL as [H1 H2]. split; [exact H1|]. cbn [rsp]. rewrite Eo.
+        apply wholeF_app; [exact H2|apply whole_F, Ho]. }
+  destruct SS as (SO & Hend). destruct SW as (o & Eo & Ho & L). destruct SV as (vm1 & HS1 & LV).
+  assert (I1 : SQ3 (abs p1) vm1 (wlog w) [] (segs w)) by (apply (SQ3_sparse (rsp r) new p1 o vm vm1 _ _ Eo Ho L HS1 LV HI)).
+  assert (WL1 : wholeF (output_buffer p1)).
+  { rewrite Eo. apply wholeF_app; [apply HWL|apply whole_F, Ho]. }
+  destruct (s_end s || (0 <? s_stream s)) eqn:Edone.
+  { match type of E with (_, (if ?c then _ else _), _) = _ => destruct c end; injection E as <- <- <-;
+      (split; [discriminate|]; split; [exists vm1; split; [exact HS1|exact I1]|]; intros _; split; [apply HWL|exact WL1]). }
+  apply orb_false_iff in Edone. destruct Edone as [Eend Estr].
+  assert (Hz : s_stream s = 0) by (destruct (N.ltb_spec 0 (s_stream s)); [discriminate|lia]).
+  assert (Hsb1 : stream_buffer p1 = []).
+  { destruct dest as [c|].
+    - destruct (so_some _ _ _ _ _ _ SO c eq_refl) as (A & _). exact A.
+    - destruct (so_none _ _ _ _ _ _ SO eq_refl) as (_ & d & B & C). rewrite B, Hsb.
+      assert (d = []) by (apply len_zero_nil; lia). subst d. reflexivity. }
+  pose proof (so_inv _ _ _ _ _ _ SO) as [RI1 A1].
+  destruct (compress_views p1 RI1) as (V1 & V2 & V3 & V4 & V5 & V6).
+  pose proof (compress_abs p1 RI1) as CA.
+  pose proof (sparse_stuck maxc (rsp r) new dest p1 s Hinv Hnew Hfit ltac:(intros _; exact Hsb) Hd0 ESP Eend Hz) as ST.
+  (* the call was quiet: a stream is active and its end is not in the bytes held *)
+  assert (HV1 : VA vm1 (abs p1) [] = false).
+  { destruct (a_stream (abs p1)) as [ta|] eqn:Es.
+    - apply (stuck_quiet_V (abs p1) vm1 ta HS1 Es (stuck_E _ ST)).
+    - exfalso. assert (H : s_end s = true) by (apply Hend; left; exact Es). rewrite H in Eend. discriminate Eend. }
+  set (r2 := mkR (compress p1) (rwriteable r) (rlock r) (raborted r)) in E.
+  assert (Hinv2 : pinv (rsp r2)).
+  { split; [exact V1|]. cbn [r2 rsp]. rewrite CA. apply compress_inv. exact A1. }
+  destruct (poll_output (S f) r2 w) as [[po r3] w0] eqn:EPO.
+  destruct (poll_output_abs _ _ _ _ _ _ EPO Hinv2 ltac:(lia))
+    as (fl & P1 & P2 & P3 & P4 & P5 & P6 & P7 & P8 & P9 & P10 & P11 & P12).
+  cbn [r2 rsp rwriteable] in P4, P5, P6, P7, P8, P9, P11.
+  pose proof (same_but_io_remaining _ _ P2) as Prem.
+  assert (Psegs : segs w0 = segs w) by apply P2.
+  assert (HS3 : SREL (abs (rsp r3)) vm1).
+  { rewrite P5, CA. apply (SREL_same (abs p1)); [reflexivity|reflexivity|exact HS1]. }
+  assert (HV3 : VA vm1 (abs (rsp r3)) [] = false) by (rewrite P5, CA; exact HV1).
+  assert (I3 : SQ3 (abs (rsp r3)) vm1 (wlog w0) [] (segs w0)).
+  { rewrite P5, P1, Psegs, CA. unfold SQ3 in *. cbn [set_out acompress a_st a_prem a_pad a_raw a_out].
+    apply (Q3_flush _ _ _ _ _ (a_out (abs p1)) _ _ _ fl); [|exact I1].
+    change (a_out (abs p1)) with (output_buffer p1). rewrite <- V4. exact P4. }
+  assert (ST3 : stuck (abs (rsp r3))).
+  { rewrite P5, CA. exact ST. }
+  assert (Hnf0 : no_fault (wscript w0)) by (apply (no_fault_suffix _ _ P3 Hnf)).
+  destruct po as [[u|k]| |].
+  - assert (Hlog0 : wholeF (wlog w0)).
+    { pose proof (Q3_world _ _ _ _ _ _ _ _ _ I3) as H. change (a_out (abs (rsp r3))) with (output_buffer (rsp r3)) in H.
+      rewrite P12, app_nil_r in H. exact H. }
+    assert (WL3 : forall w1, wlog w1 = wlog w0 -> wl r3 w1).
+    { intros w1 Q1. split; [rewrite Q1; exact Hlog0|rewrite P12; apply wholeF_nil]. }
+    destruct (t_poll_read (sinput_space (rsp r3)) w0) as [pr w1] eqn:ER.
+    destruct (t_poll_read_rem _ _ _ _ ER) as (T1 & T2 & T3 & T4).
+    pose proof (read_inv3 (abs (rsp r3)) vm1 (wlog w0) w0 _ pr w1 ER eq_refl HS3 HV3 I3) as RI3.
+    destruct pr as [[b|k]| |].
+    + destruct T4 as (Tr & Tl & Tnil). destruct b as [|x b'].
+      * injection E as <- <- <-. split; [discriminate|]. split; [exists vm1; split; [exact HS3|rewrite T1; exact RI3]|].
+        intros _. apply WL3, T1.
+      * assert (Hb : bytes_ok (x :: b' ++ remaining w1)) by (rewrite <- Prem, Tr in Hrem; exact Hrem).
+        change (x :: b' ++ remaining w1) with ((x :: b') ++ remaining w1) in Hb. apply bytes_ok_app in Hb.
+        assert (Hf' : (length (wscript w1) + length (remaining w1) + 2 <= f)%nat).
+        { rewrite T2. pose proof (suffix_length _ _ P3). rewrite <- Prem, Tr in Hf.
+          cbn [app length] in Hf. rewrite app_length in Hf. lia. }
+        apply (IH dest (x :: b') r3 w1 p r' w' P10 (proj2 Hb) (proj1 Hb) Tl ltac:(rewrite P6, V2; exact Hsb1) Hd0
+                  ltac:(rewrite T2; exact Hnf0) Hf' E); [exists vm1; split; [exact HS3|rewrite T1; exact RI3]|apply WL3, T1].
+    + injection E as <- <- <-. split; [discriminate|]. split; [exists vm1; split; [exact HS3|rewrite T1; exact RI3]|].
+      intros _. apply WL3, T1.
+    + injection E as <- <- <-. split; [discriminate|]. split; [exists vm1; split; [exact HS3|rewrite T1; exact RI3]|].
+      intros H; destruct H.
+    + exfalso. apply RI3; [exact P12|apply (stuck_W _ ST3)].
+  - exfalso. apply (no_fault_not_fault _ _ Hnf P12).
+  - injection E as <- <- <-. split; [discriminate|]. split; [exists vm1; split; [exact HS3|exact I3]|]. intros H; destruct H.
+  - contradiction.
+Qed.
+
+Lemma flush_inv3 r w fl r1 w1 : wlog w1 = wlog w ++ fl -> segs w1 = segs w ->
+  output_buffer (rsp r) = fl ++ output_buffer (rsp r1) ->
+  abs (rsp r1) = set_out (abs (rsp r)) (output_buffer (rsp r1)) ->
+  forall new, inv3 r w new -> inv3 r1 w1 new.
+Proof.
+  intros P1 Psegs P4 P5 new (vm & HS & HI). exists vm. unfold SQ3 in *. rewrite P5, P1, Psegs.
+  split; [apply (SREL_same (abs (rsp r))); [reflexivity|reflexivity|exact HS]|].
+  cbn [set_out a_st a_prem a_pad a_raw a_out].
+  apply (Q3_flush _ _ _ _ _ (a_out (abs (rsp r))) _ _ _ fl); [exact P4|exact HI].
+Qed.
+
+Lemma inv3_world r w new : inv3 r w new -> wholeF (wlog w ++ output_buffer (rsp r)).
+Proof. intros (vm & _ & HI). apply (Q3_world _ _ _ _ _ _ _ _ _ HI). Qed.
+
+Lemma poll_input_nd3 fuel dest r w p r' w' :
+  pinv (rsp r) -> bytes_ok (remaining w) -> no_fault (wscript w) ->
+  (length (wscript w) + length (remaining w) + 2 <= fuel)%nat ->
+  poll_input maxc fuel dest r w = (p, r', w') ->
+  inv3 r w [] -> (wl r w \/ poll_parses dest r = true) ->
+  p <> PBlock /\ inv3 r' w' [] /\ (ready p -> wl r' w').
+Proof.
+  intros Hinv Hrem Hnf Hf E HI HD.
+  assert (EMPTY : stream_buffer (rsp r) = [] -> dest <> Some 0 ->
+    (match poll_output fuel r w with
+     | (PReady (inl _), r1, w1) => input_loop maxc fuel dest [] r1 w1
+     | (PReady (inr k), r1, w1) => (PReady (inr k), r1, w1)
+     | (PWake, r1, w1) => (PWake, r1, w1)
+     | (PBlock, r1, w1) => (PBlock, r1, w1)
+     end) = (p, r', w') ->
+    p <> PBlock /\ inv3 r' w' [] /\ (ready p -> wl r' w')).
+  { intros Esb Hd0 E1.
+    destruct (poll_output fuel r w) as [[po r1] w1] eqn:EPO.
+    destruct (poll_output_abs _ _ _ _ _ _ EPO Hinv ltac:(lia))
+      as (fl & P1 & P2 & P3 & P4 & P5 & P6 & P7 & P8 & P9 & P10 & P11 & P12).
+    pose proof (same_but_io_remaining _ _ P2) as Prem.
+    assert (Psegs : segs w1 = segs w) by apply P2.
+    pose proof (flush_inv3 r w fl r1 w1 P1 Psegs P4 P5 [] HI) as I1.
+    destruct po as [[u|k]| |].
+    - pose proof (suffix_length _ _ P3) as Hsl.
+      assert (WL1 : wl r1 w1).
+      { pose proof (inv3_world _ _ _ I1) as H. rewrite P12, app_nil_r in H. split; [exact H|rewrite P12; apply wholeF_nil]. }
+      apply (input_loop_nd3 fuel dest [] r1 w1 p r' w' P10 ltac:(rewrite Prem; exact Hrem) ltac:(constructor)
+               ltac:(rewrite len_nil; lia) ltac:(rewrite P6; exact Esb) Hd0 (no_fault_suffix _ _ P3 Hnf)
+               ltac:(rewrite Prem; lia) E1 I1 WL1).
+    - exfalso. apply (no_fault_not_fault _ _ Hnf P12).
+    - injection E1 as <- <- <-. split; [discriminate|]. split; [exact I1|]. intros H; destruct H.
+    - contradiction. }
+  assert (SAME : poll_parses dest r = false -> PReady (inl (0, @nil N)) <> @PBlock (N * bytes + N) /\ inv3 r w [] /\
+                 (ready (PReady (@inl (N * bytes) N (0, @nil N))) -> wl r w)).
+  { intros Hpp. split; [discriminate|]. split; [exact HI|]. intros _. destruct HD as [H|H]; [exact H|]. rewrite Hpp in H. discriminate H. }
+  destruct dest as [[|pc]|].
+  - rewrite poll_input_zero in E. injection E as <- <- <-. apply SAME. reflexivity.
+  - unfold poll_input in E. cbv zeta in E. destruct (stream_buffer (rsp r)) as [|x sb] eqn:Esb.
+    + apply EMPTY; [reflexivity|discriminate|exact E].
+    + cbv beta iota in E. injection E as <- <- <-.
+      set (n := N.min (N.pos pc) (len (x :: sb))).
+      destruct Hinv as [HRI HI0].
+      pose proof (consume_stream_abs (rsp r) n HRI) as CA.
+      assert (Hpp : poll_parses (Some (N.pos pc)) r = false) by (unfold poll_parses; rewrite Esb; reflexivity).
+      split; [discriminate|]. split.
+      * destruct HI as (vm & HS & HI). exists vm. unfold SQ3 in *. cbn [rsp]. rewrite CA.
+        split; [apply (SREL_same (abs (rsp r))); [reflexivity|reflexivity|exact HS]|].
+        cbn [aconsume_stream a_st a_prem a_pad a_raw a_out]. exact HI.
+      * intros _. destruct HD as [[H1 H2]|H]; [|rewrite Hpp in H; discriminate H]. split; [exact H1|]. cbn [rsp].
+        pose proof (f_equal a_out CA) as Eo. cbn [abs aconsume_stream a_out] in Eo. rewrite Eo. exact H2.
+  - unfold poll_input in E. cbv zeta in E. destruct (stream_buffer (rsp r)) as [|x sb] eqn:Esb.
+    + apply EMPTY; [reflexivity|discriminate|exact E].
+    + cbv beta iota in E. injection E as <- <- <-. apply SAME. unfold poll_parses. rewrite Esb. reflexivity.
+Qed.
+
+(* poll_fn(|cx| poll_input(cx, dest)).await never ends in the wait-for cycle *)
+Theorem await_input_nd3 : forall fuel dest r w, pinv (rsp r) -> bytes_ok (remaining w) -> no_fault (wscript w) ->
+  inv3 r w [] -> (wl r w \/ poll_parses dest r = true) ->
+  match await_input maxc fuel dest r w with
+  | Ok (_, r') w' => inv3 r' w' [] /\ wl r' w'
+  | Halt o w' => o <> ODeadlock
+  end.
+Proof.
+  induction fuel as [|f IH]; intros dest r w Hinv Hrem Hnf HI HD; [cbn [await_input]; discriminate|].
+  cbn [await_input].
+  destruct (poll_input maxc (io_fuel w (len (buffer (rsp r)))) dest r w) as [[p r1] w1] eqn:EP.
+  assert (Hfu : (length (wscript w) + length (remaining w) + 2 <= io_fuel w (len (buffer (rsp r))))%nat)
+    by (rewrite io_fuel_remaining; lia).
+  destruct (poll_input_reads maxc _ dest r w p r1 w1 Hinv Hrem Hfu EP) as (dl & A & C & _).
+  destruct (poll_input_nd3 _ dest r w p r1 w1 Hinv Hrem Hnf Hfu EP HI HD) as (NB & I1 & WL1).
+  assert (RETRY : forall w1', remaining w1' = remaining w1 -> wlog w1' = wlog w1 -> segs w1' = segs w1 ->
+            wscript w1' = wscript w1 -> poll_parses dest r1 = true ->
+            match await_input maxc f dest r1 w1' with
+            | Ok (_, r') w' => inv3 r' w' [] /\ wl r' w'
+            | Halt o w' => o <> ODeadlock
+            end).
+  { intros w1' Q1 Q2 Q3' Q4 Hpp. apply IH.
+    - apply (ac_inv _ _ _ _ _ _ _ A).
+    - rewrite Q1. apply (acct_bytes_ok _ _ _ _ _ _ _ A Hrem).
+    - rewrite Q4. apply (no_fault_suffix _ _ (ac_ws _ _ _ _ _ _ _ A) Hnf).
+    - unfold inv3 in *. rewrite Q2, Q3'. exact I1.
+    - right. exact Hpp. }
+  destruct p as [x| |].
+  - split; [exact I1|apply WL1; exact I].
+  - unfold on_wake. cbn [andb]. apply RETRY; try reflexivity.
+    destruct C as (C1 & C2 & C3). destruct dest as [[|pc]|].
+    + rewrite poll_input_zero in EP. discriminate EP.
+    + unfold poll_parses. rewrite C3. reflexivity.
+    + unfold poll_parses. rewrite C3. reflexivity.
+  - exfalso. apply NB. reflexivity.
+Qed.
+
+(* ---- the handler's view: what holds between its operations ---- *)
+Definition HS3 (r : rstate) (w : world) : Prop :=
+  pinv (rsp r) /\ bytes_ok (remaining w) /\ no_fault (wscript w) /\ inv3 r w [] /\ wl r w.
+
+Lemma HS3_world r w w' : remaining w' = remaining w -> wscript w' = wscript w -> wlog w' = wlog w -> segs w' = segs w ->
+  HS3 r w -> HS3 r w'.
+Proof.
+  intros Q1 Q2 Q3' Q4 (H1 & H2 & H3 & H4 & H5). unfold HS3, inv3, wl in *. rewrite Q1, Q2, Q3', Q4. tauto.
+Qed.
+
+Lemma HS3_ev r w e : HS3 r w -> HS3 r (w_ev w e).
+Proof. apply HS3_world; reflexivity. Qed.
+
+Lemma await_input_hs3 fuel dest r w : HS3 r w ->
+  match await_input maxc fuel dest r w with
+  | Ok (_, r') w' => HS3 r' w'
+  | Halt o _ => o <> ODeadlock
+  end.
+Proof.
+  intros (H1 & H2 & H3 & H4 & H5).
+  pose proof (await_input_nd3 fuel dest r w H1 H2 H3 H4 (or_introl H5)) as ND.
+  pose proof (await_input_keeps maxc fuel dest r w) as KP.
+  destruct (await_input maxc fuel dest r w) as [[x r'] w'|o w']; [|exact ND].
+  destruct (KP x r' w' H1 H2 H3 eq_refl) as (K1 & K2 & K3). destruct ND as [N1 N2].
+  split; [exact K1|]. split; [exact K2|]. split; [exact K3|]. split; assumption.
+Qed.
+
+Lemma consume_hs3 r w c wr lk ab : HS3 r w -> HS3 (mkR (consume_stream (rsp r) c) wr lk ab) w.
+Proof.
+  intros ([HRI HI0] & H2 & H3 & (vm & HS & H4) & [H5 H6]). pose proof (consume_stream_abs (rsp r) c HRI) as CA.
+  split; [split; [apply consume_stream_RI; exact HRI|cbn [rsp]; rewrite CA; apply consume_stream_inv; exact HI0]|].
+  split; [exact H2|]. split; [exact H3|]. split.
+  - exists vm. unfold SQ3 in *. cbn [rsp]. rewrite CA.
+    split; [apply (SREL_same (abs (rsp r))); [reflexivity|reflexivity|exact HS]|].
+    cbn [aconsume_stream a_st a_prem a_pad a_raw a_out]. exact H4.
+  - split; [exact H5|]. cbn [rsp]. pose proof (f_equal a_out CA) as Eo. cbn [abs aconsume_stream a_out] in Eo. rewrite Eo. exact H6.
+Qed.
+
+Lemma gt_in_role role x c : cmp_input_streams role x (Some c) = Some Gt -> In x (role_input_streams role).
+Proof.
+  intros H. destruct (cmp_gt_input _ _ _ H) as [Hx Hc]. apply is_input_cases in Hx. apply is_input_cases in Hc.
+  unfold cmp_input_streams in H.
+  destruct (role_streams_cases role) as [Hr|[Hr|Hr]]; rewrite Hr in *;
+    destruct Hx as [-> | ->]; destruct Hc as [-> | ->]; vm_compute in H; try discriminate H; cbn [In]; auto.
+Qed.
+
+Lemma eq_same role x c : cmp_input_streams role x (Some c) = Some Eq -> x = c.
+Proof.
+  unfold cmp_input_streams. destruct (negb (is_input_stream x) || negb (is_input_stream c)); [discriminate|].
+  destruct (N.eqb_spec x c) as [->|_]; [reflexivity|]. intros H. exfalso. injection H as H. revert H.
+  generalize (role_input_streams role). intros l.
+  assert (G : forall pos, pos <> Eq ->
+    (fix go (l0 : list N) (pos0 : ord) {struct l0} : ord :=
+       match l0 with [] => Lt | s :: t => if s =? x then pos0 else if s =? c then go t Gt else go t pos0 end) l pos <> Eq).
+  { induction l as [|s t IH]; intros pos Hp; [discriminate|]. destruct (s =? x); [exact Hp|]. destruct (s =? c); apply IH; [discriminate|exact Hp]. }
+  apply G. discriminate.
+Qed.
+
+Lemma SREL_set a s vm B sp parsed raw out prem pad st : SREL a vm ->
+  accepts (r_role (a_req a)) (a_stream a) s = Some true ->
+  SREL (mkA B sp parsed raw out (a_req a) s prem pad st) vm.
+Proof.
+  intros HS Hacc. unfold SREL, in_role in *. cbn [a_req a_stream].
+  destruct s as [x|]; [|destruct HS as [[-> _]|[-> _]]; [left; split; [reflexivity|exact I]|right; split; reflexivity]].
+  unfold accepts in Hacc. destruct (a_stream a) as [c|] eqn:Es; [|discriminate Hacc].
+  destruct HS as [[-> Hr]|[_ Hn]]; [|discriminate Hn]. left. split; [reflexivity|].
+  destruct (cmp_input_streams (r_role (a_req a)) x (Some c)) as [[| |]|] eqn:Ec; try discriminate Hacc.
+  - apply eq_same in Ec. subst x. exact Hr.
+  - apply (gt_in_role _ _ _ Ec).
+Qed.
+
+Lemma set_stream_hs3 r w s p' wr lk ab : HS3 r w -> set_stream (rsp r) s = SetOk p' -> HS3 (mkR p' wr lk ab) w.
+Proof.
+  intros (Hinv & Hrem & Hnf & (vm & HS & HI) & HWL) E.
+  destruct (set_stream_step maxc (rsp r) s p' Hinv E) as (I1 & _ & _ & Eo & _).
+  split; [exact I1|]. split; [exact Hrem|]. split; [exact Hnf|]. split.
+  - destruct Hinv as [HRI _]. pose proof (set_stream_refines (rsp r) s HRI) as SR. rewrite E in SR.
+    destruct (aset_stream (abs (rsp r)) s) as [a1| |] eqn:EA; try contradiction. destruct SR as [_ A1].
+    exists vm. unfold SQ3 in *. cbn [rsp]. rewrite A1. unfold aset_stream in EA.
+    destruct (accepts (r_role (a_req (abs (rsp r)))) (a_stream (abs (rsp r))) s) as [[|]|] eqn:Eacc; try discriminate EA.
+    destruct (optN_eqb s (a_stream (abs (rsp r)))); injection EA as <-; [split; [exact HS|exact HI]|].
+    split; [apply (SREL_set _ _ _ _ _ _ _ _ _ _ _ HS Eacc)|].
+    cbn [abs a_st a_prem a_pad a_raw a_out] in HI |- *. destruct (sst (rsp r)); exact HI.
+  - split; [apply HWL|]. cbn [rsp]. rewrite Eo. apply HWL.
+Qed.
+
+Lemma do_writeable_hs3 r w : HS3 r w ->
+  match do_writeable maxc r w with
+  | Ok (_, r') w' => HS3 r' w'
+  | Halt o _ => o <> ODeadlock
+  end.
+Proof.
+  intros H. unfold do_writeable. destruct (rwriteable r); [exact H|].
+  destruct (set_stream (rsp r) _) as [p'| |] eqn:E; [|discriminate|discriminate].
+  pose proof (await_input_hs3 (io_fuel w 0) None _ w (set_stream_hs3 r w _ p' false (rlock r) (raborted r) H E)) as A.
+  destruct (await_input maxc (io_fuel w 0) None (mkR p' false (rlock r) (raborted r)) w) as [[[x|k] r'] w'|o w']; exact A.
+Qed.
+
+Lemma read_all_hs3 : forall fuel acc r w, HS3 r w ->
+  match read_all maxc fuel acc r w with
+  | Ok (_, r') w' => HS3 r' w'
+  | Halt o _ => o <> ODeadlock
+  end.
+Proof.
+  induction fuel as [|f IH]; intros acc r w H; [cbn [read_all]; discriminate|]. cbn [read_all].
+  pose proof (await_input_hs3 (io_fuel w 0) (Some 64) r w H) as A.
+  destruct (await_input maxc (io_fuel w 0) (Some 64) r w) as [[[[n b]|k] r'] w'|o w']; [|exact A|exact A].
+  destruct (n =? 0); [exact A|]. apply IH. exact A.
+Qed.
+
+(* the handler's own output: complete records appended to the log *)
+Lemma log_hs3 r w w' x : io_rel w w' x -> wholeF x -> HS3 r w -> HS3 r w'.
+Proof.
+  intros (Hsame & Hlog & Hsuf & _) Hx (H1 & H2 & H3 & (vm & HS & H4) & [H5 H6]). unfold wlog_ext in Hlog.
+  split; [exact H1|]. split; [rewrite (same_but_io_remaining _ _ Hsame); exact H2|].
+  split; [apply (no_fault_suffix _ _ Hsuf H3)|]. assert (Hsegs : segs w' = segs w) by apply Hsame. split.
+  - exists vm. split; [exact HS|]. unfold SQ3 in *. rewrite Hlog, Hsegs. apply Q3_log; assumption.
+  - split; [rewrite Hlog; apply wholeF_app; assumption|exact H6].
+Qed.
+
+Lemma writer_hs3 fuel stype id data r w : HS3 r w ->
+  match writer_write_all fuel stype id data w with
+  | Ok None w' => HS3 r w'
+  | Ok (Some _) _ => False
+  | Halt o _ => o <> ODeadlock
+  end.
+Proof.
+  intros H. pose proof (writer_write_all_spec fuel stype id data w) as S.
+  destruct (writer_write_all fuel stype id data w) as [[k|] w'|o w']; cbn [wspec] in S.
+  - destruct S as (_ & Hn & _). apply Hn. apply H.
+  - apply (log_hs3 r w w' _ S (stream_records_F stype id data) H).
+  - destruct o; try contradiction; discriminate.
+Qed.
+
+Lemma run_handler_hs3 strict role cur script : script_ok strict role cur script ->
+  forall f r w, HS3 r w ->
+  match run_handler maxc f script r w with
+  | Ok (_, r') w' => HS3 r' w'
+  | Halt o _ => o <> ODeadlock
+  end.
+Proof.
+  induction 1 as [cur|cur n rest H IH|cur rest H IH|cur k rest H IH|cur s rest Hacc H IH|cur rest H IH
+                  |cur s n rest H IH|cur s rest H IH|cur d c rest Hd|cur k rest|cur n rest H IH];
+    intros f r w HSr; (destruct f as [|f]; [cbn [run_handler]; discriminate|]); cbn [run_handler].
+  - apply HS3_ev, HSr.
+  - pose proof (await_input_hs3 (io_fuel w 0) (Some n) r w HSr) as A.
+    destruct (await_input maxc (io_fuel w 0) (Some n) r w) as [[[[c b]|k] r1] w1|o w1]; [| |exact A];
+      apply IH; apply HS3_ev, HS3_ev, A.
+  - match goal with |- context [read_all maxc ?fu [] r w] => pose proof (read_all_hs3 fu [] r w HSr) as A;
+      destruct (read_all maxc fu [] r w) as [[[k acc] r1] w1|o w1] end; [|exact A].
+    apply IH. apply HS3_ev, HS3_ev, A.
+  - pose proof (await_input_hs3 (io_fuel w 0) None r w HSr) as A.
+    destruct (await_input maxc (io_fuel w 0) None r w) as [[[[c b]|e] r1] w1|o w1]; [| |exact A].
+    + apply IH. apply HS3_ev, HS3_ev. apply consume_hs3. exact A.
+    + apply IH. apply HS3_ev, HS3_ev, A.
+  - destruct (set_stream (rsp r) (Some s)) as [p'| |] eqn:E; [|discriminate|discriminate].
+    apply IH. apply HS3_ev. apply (set_stream_hs3 r w (Some s) p' _ _ _ HSr E).
+  - pose proof (do_writeable_hs3 r w HSr) as A.
+    destruct (do_writeable maxc r w) as [[e r1] w1|o w1]; [|exact A]. apply IH. apply HS3_ev, A.
+  - destruct (negb (rwriteable r)); [apply IH; apply HS3_ev, HSr|].
+    pose proof (writer_hs3 (N.to_nat (n / 65535) + 2) s (r_id (sreq (rsp r))) (take n rest) r w HSr) as A.
+    destruct (writer_write_all (N.to_nat (n / 65535) + 2) s (r_id (sreq (rsp r))) (take n rest) w) as [[k|] w1|o w1];
+      [contradiction| |exact A].
+    apply IH. apply HS3_ev, A.
+  - destruct (rwriteable r); apply IH; apply HS3_ev, HSr.
+  - apply HS3_ev, HSr.
+  - apply HS3_ev, HSr.
+  - pose proof (await_input_hs3 (io_fuel w 0) (Some n) r w HSr) as A.
+    destruct (await_input maxc (io_fuel w 0) (Some n) r w) as [[[[c b]|k] r1] w1|o w1]; [| |exact A].
+    + apply IH. apply HS3_ev, HS3_ev, A.
+    + apply HS3_ev, HS3_ev, A.
+Qed.
+
+(* ---- input.read(buf).await outside poll_input: Request::record_boundary, Token::parse_request ---- *)
+Lemma await_read_inv3 k vm p q raw out : forall fuel sel L w, Q3 k vm p q raw out (wlog w) [] (segs w) ->
+  (VB vm p q raw = true -> vm = MI) ->
+  (forall E ge gm bb rest, flat E = [] -> segs w = E ++ (ge, gm, bb) :: rest -> bb <> [] -> gate_met (counts (wlog w)) ge gm) ->
+  match await_read fuel sel L w with
+  | Ok (inl b) w' => exists vm', (vm' = vm \/ (vm = MI /\ vm' = MB)) /\ Q3 k vm' p q raw out (wlog w') b (segs w')
+  | Ok (inr _) w' => Q3 k vm p q raw out (wlog w') [] (segs w')
+  | Halt o _ => o <> ODeadlock
+  end.
+Proof.
+  induction fuel as [|f IH]; intros sel L w HI Hvm HG; [cbn [await_read]; discriminate|]. cbn [await_read].
+  destruct (t_poll_read L w) as [pr w1] eqn:ET. pose proof (t_poll_read_segs _ _ _ _ ET) as S2.
+  destruct (t_poll_read_rem _ _ _ _ ET) as (T1 & _). destruct pr as [[b|e]| |]; cbv beta iota in S2.
+  - rewrite T1. destruct S2 as [(-> & E0 & HF & HS)|(E0 & ge & gm & bb & rest & n & HF & HS & Hbb & Hb & HS' & Hm)].
+    + exists vm. split; [left; reflexivity|]. rewrite HS in HI. apply (Q3_skip _ _ _ _ _ _ _ _ E0 _ HF HI).
+    + rewrite HS in HI. rewrite HS', Hb. apply (Q3_read _ _ _ _ _ _ _ E0 ge gm bb rest n HF Hbb Hm Hvm HI).
+  - rewrite T1. destruct S2 as (E0 & HF & HS). rewrite HS in HI. apply (Q3_skip _ _ _ _ _ _ _ _ E0 _ HF HI).
+  - unfold on_wake. destruct (sel && stopped (w_bump w1)); [discriminate|].
+    destruct S2 as (E0 & HF & HS). apply IH.
+    + change (wlog (w_bump w1)) with (wlog w1). change (segs (w_bump w1)) with (segs w1). rewrite T1.
+      rewrite HS in HI. apply (Q3_skip _ _ _ _ _ _ _ _ E0 _ HF HI).
+    + exact Hvm.
+    + intros E ge gm bb rest HF' HS' Hbb. change (wlog (w_bump w1)) with (wlog w1). change (segs (w_bump w1)) with (segs w1) in HS'.
+      rewrite T1. apply (HG (E0 ++ E) ge gm bb rest); [rewrite flat_map_app, HF, HF'; reflexivity| |exact Hbb].
+      rewrite HS, HS', app_assoc. reflexivity.
+  - exfalso. destruct S2 as (E0 & ge & gm & bb & rest & HF & HS & Hbb & Hn). apply Hn. apply (HG E0 ge gm bb rest HF HS Hbb).
+Qed.
+
+Lemma HS3_mk p1 vm wr lk ab w : pinv p1 -> bytes_ok (remaining w) -> no_fault (wscript w) -> SREL (abs p1) vm ->
+  SQ3 (abs p1) vm (wlog w) [] (segs w) -> wholeF (wlog w) -> wholeF (output_buffer p1) -> HS3 (mkR p1 wr lk ab) w.
+Proof.
+  intros H1 H2 H3 HS H4 H5 H6. split; [exact H1|]. split; [exact H2|]. split; [exact H3|].
+  split; [exists vm; split; [exact HS|exact H4]|]. split; [exact H5|exact H6].
+Qed.
+
+(* Request::record_boundary: a read inside the skip loop happens strictly inside a record, hence inside a segment
+   the client has already opened *)
+Lemma boundary_loop_hs3 : forall fuel new r w,
+  pinv (rsp r) -> bytes_ok new -> len new <= sinput_space (rsp r) -> bytes_ok (remaining w) -> no_fault (wscript w) ->
+  inv3 r w new -> wl r w ->
+  match boundary_loop maxc fuel new r w with
+  | Ok (_, r') w' => HS3 r' w'
+  | Halt o _ => o <> ODeadlock
+  end.
+Proof.
+  induction fuel as [|f IH]; intros new r w Hinv Hnew Hfit Hrem Hnf (vm & HS & HI) HWL; [cbn [boundary_loop]; discriminate|].
+  rewrite ConnWrites.boundary_loop_S.
+  pose proof (sparse_step maxc (rsp r) new None Hinv Hnew Hfit ltac:(intros H; contradiction)) as SS.
+  pose proof (sparse_walk maxc (rsp r) new None Hinv Hnew) as SW.
+  pose proof (sparse_struct (rsp r) new None vm Hinv HS) as SV.
+  assert (PARSED : forall p1 s, sparse_ok maxc (rsp r) new None p1 s ->
+            (exists o, output_buffer p1 = output_buffer (rsp r) ++ o /\ whole o /\
+                       forall u, W (abs (rsp r)) (new ++ u) = padd (snd (counts o)) (W (abs p1) u)) ->
+            (exists vm', SREL (abs p1) vm' /\ forall u, VA vm (abs (rsp r)) (new ++ u) = true -> VA vm' (abs p1) u = true) ->
+            pinv p1 /\ (exists vm1, SREL (abs p1) vm1 /\ SQ3 (abs p1) vm1 (wlog w) [] (segs w)) /\ wholeF (output_buffer p1)).
+  { intros p1 s SO (o & Eo & Ho & L) (vm1 & HS1 & LV). split; [apply (so_inv _ _ _ _ _ _ SO)|].
+    split; [exists vm1; split; [exact HS1|apply (SQ3_sparse (rsp r) new p1 o vm vm1 _ _ Eo Ho L HS1 LV HI)]|].
+    rewrite Eo. apply wholeF_app; [apply HWL|apply whole_F, Ho]. }
+  assert (AFTER : forall p1 s, sparse_ok maxc (rsp r) new None p1 s ->
+            (exists o, output_buffer p1 = output_buffer (rsp r) ++ o /\ whole o /\
+                       forall u, W (abs (rsp r)) (new ++ u) = padd (snd (counts o)) (W (abs p1) u)) ->
+            (exists vm', SREL (abs p1) vm' /\ forall u, VA vm (abs (rsp r)) (new ++ u) = true -> VA vm' (abs p1) u = true) ->
+            (stuck (abs p1) \/ is_record_boundary p1 = true) ->
+            match ConnWrites.bl_after maxc f r w p1 with
+            | Ok (_, r') w' => HS3 r' w'
+            | Halt o _ => o <> ODeadlock
+            end).
+  { intros p1 s SO SW1 SV1 Hstop. destruct (PARSED p1 s SO SW1 SV1) as ([RI1 A1] & (vm1 & HS1 & I1) & WL1).
+    unfold ConnWrites.bl_after. cbv zeta. destruct (is_record_boundary p1) eqn:Eb.
+    { apply (HS3_mk p1 vm1); try assumption; [split; assumption|apply HWL]. }
+    destruct Hstop as [ST|Hc]; [|discriminate Hc].
+    destruct (compress_views p1 RI1) as (V1 & V2 & V3 & V4 & V5 & V6).
+    pose proof (compress_abs p1 RI1) as CA.
+    assert (I2 : pinv (compress p1)) by (split; [exact V1|rewrite CA; apply compress_inv; exact A1]).
+    assert (HS2 : SREL (abs (compress p1)) vm1) by (rewrite CA; apply (SREL_same (abs p1)); [reflexivity|reflexivity|exact HS1]).
+    assert (Q2 : SQ3 (abs (compress p1)) vm1 (wlog w) [] (segs w)) by (rewrite CA; exact I1).
+    pose proof (stuck_V (abs p1) vm1 ST Eb) as HV. unfold VA in HV. rewrite app_nil_r in HV.
+    assert (Hvm : VB vm1 (a_prem (abs (compress p1))) (a_pad (abs (compress p1))) (a_raw (abs (compress p1))) = true -> vm1 = MI).
+    { rewrite CA. cbn [acompress a_prem a_pad a_raw]. intros V. rewrite V in HV. discriminate HV. }
+    assert (GATE : forall E ge gm bb rest, flat E = [] -> segs w = E ++ (ge, gm, bb) :: rest -> bb <> [] ->
+              gate_met (counts (wlog w)) ge gm).
+    { intros E ge gm bb rest HF HS0 Hbb. unfold SQ3 in I1. rewrite HS0 in I1.
+      refine (Q3_block_mid _ _ _ _ _ _ _ E ge gm bb rest HF Hbb _ HV I1).
+      destruct (stuck_W _ ST) as [_ H]. unfold W in H. rewrite app_nil_r in H. apply H. exact Eb. }
+    pose proof (await_read_inv3 _ _ _ _ _ _ (io_fuel w 0) false (sinput_space (compress p1)) w Q2 Hvm GATE) as AR.
+    pose proof (await_read_rem (io_fuel w 0) false (sinput_space (compress p1)) w) as RM.
+    destruct (await_read (io_fuel w 0) false (sinput_space (compress p1)) w) as [[b|k] w1|o w1]; [| |exact AR].
+    - destruct AR as (vm' & [->|[Hm _]] & AR); [|exfalso; apply (SREL_not_MI _ _ HS1 Hm)].
+      destruct RM as (R1 & R2 & R3 & R4 & _). rewrite R3 in Hrem. apply bytes_ok_app in Hrem. destruct b as [|x b].
+      + apply (HS3_mk _ vm1); [exact I2|apply Hrem|rewrite R2; exact Hnf|exact HS2|exact AR|rewrite R1; apply HWL|rewrite V4; exact WL1].
+      + apply IH; [exact I2|apply Hrem|exact R4|apply Hrem|rewrite R2; exact Hnf|exists vm1; split; [exact HS2|exact AR]|].
+        split; [rewrite R1; apply HWL|cbn [rsp]; rewrite V4; exact WL1].
+    - destruct RM as (R1 & R2 & R3 & _).
+      apply (HS3_mk _ vm1); [exact I2|rewrite R3; exact Hrem|rewrite R2; exact Hnf|exact HS2|exact AR|rewrite R1; apply HWL|rewrite V4; exact WL1]. }
+  destruct (sparse maxc (rsp r) new None) as [p1 s|p1 e s|n] eqn:ESP; [| |discriminate].
+  - apply (AFTER p1 s); [apply SS|exact SW|exact SV|apply (sparse_none_stop maxc (rsp r) new p1 s Hinv ESP)].
+  - destruct SS as (SO & He & _).
+    assert (ERR : HS3 (mkR p1 (rwriteable r) (rlock r) (raborted r)) w).
+    { destruct (PARSED p1 s SO SW SV) as (J1 & (vm1 & J2 & J3) & J4). apply (HS3_mk p1 vm1); try assumption. apply HWL. }
+    destruct e; try exact ERR.
+    apply (AFTER p1 s SO SW SV). right. apply (err_at_boundary _ _ He).
+Qed.
+
+Lemma record_boundary_hs3 r w : HS3 r w ->
+  match record_boundary maxc r w with
+  | Ok (_, r') w' => HS3 r' w'
+  | Halt o _ => o <> ODeadlock
+  end.
+Proof.
+  intros H. unfold record_boundary. destruct (is_record_boundary (rsp r)); [exact H|].
+  destruct H as (H1 & H2 & H3 & H4 & H5). apply boundary_loop_hs3; try assumption; [constructor|rewrite len_nil; lia].
+Qed.
+
+(* ---- Request::close ---- *)
+(* what holds between requests: [new] are bytes read but not yet fed to the request parser; [g]: the segment of the next
+   request has been opened *)
+Definition PS3 (p : parser) (w : world) (new : bytes) : Prop :=
+  bytes_ok (remaining w) /\ no_fault (wscript w) /\
+  exists g, Q3 (sk (st p)) (rvm g (st p)) (sprem (st p)) (spad (st p)) (held p) [] (wlog w) new (segs w).
+
+Lemma hdr0s_F id streams : wholeF (flat_map (fun s => hdr_encode s id 0 0) streams).
+Proof. induction streams as [|s t IH]; [apply wholeF_nil|]. cbn [flat_map]. apply wholeF_app; [apply hdr0_F|exact IH]. Qed.
+
+Lemma end_EC app ps id : EC (end_record app ps id) = 1.
+Proof.
+  change (end_record app ps id) with (enc_rcds [mkRcd RT_EndRequest id (end_encode app ps) []] ++ []).
+  rewrite app_nil_r. unfold EC. rewrite counts_enc_fr; [reflexivity|].
+  constructor; [|constructor]. split; vm_compute; reflexivity.
+Qed.
+
+(* every epilogue written by Request::close holds an EndRequest record *)
+Lemma epilogue_EC id disc code streams ep : epilogue id disc code streams = Some ep -> 1 <= EC ep.
+Proof.
+  unfold epilogue. destruct (exit_to_end disc code) as [[app ps]|]; [|discriminate]. intros E. injection E as <-.
+  rewrite (EC_app _ _ (hdr0s_F id streams) (end_F app ps id)), end_EC. lia.
+Qed.
+
+Lemma close_tail_hs3 r1 disc code w1 : HS3 r1 w1 ->
+  match close_tail maxc r1 disc code w1 with
+  | Ok (inl rp) w' => PS3 rp w' []
+  | Ok (inr _) _ => True
+  | Halt o _ => o <> ODeadlock
+  end.
+Proof.
+  intros H. rewrite close_tail_unfold.
+  destruct (set_stream (rsp r1) None) as [p2| |] eqn:E; [|discriminate|discriminate].
+  pose proof (record_boundary_hs3 _ w1 (set_stream_hs3 r1 w1 None p2 (rwriteable r1) (rlock r1) (raborted r1) H E)) as RB.
+  destruct (record_boundary maxc (mkR p2 (rwriteable r1) (rlock r1) (raborted r1)) w1) as [[[k2|] r3] w2|o w2];
+    [exact I| |exact RB].
+  pose proof (close_finish_spec r3 disc code w2) as CF.
+  destruct (epilogue (r_id (sreq (rsp r3))) disc code (if rwriteable r3 then ROLE_OUTPUT_STREAMS else [])) as [ep|] eqn:Eep;
+    [|rewrite CF; discriminate].
+  destruct (close_finish r3 disc code w2) as [[rp|k] w'|o w']; unfold cf_post in CF; cbv zeta in CF.
+  - destruct CF as ((Hsame & Hlog & Hsuf & _) & Hconv & _). unfold wlog_ext in Hlog.
+    destruct RB as ([RI3 A3] & R2 & R3 & (vm3 & HS3' & R4) & [R5 R6]).
+    split; [rewrite (same_but_io_remaining _ _ Hsame); exact R2|]. split; [apply (no_fault_suffix _ _ Hsuf R3)|].
+    assert (Hsegs : segs w' = segs w2) by apply Hsame.
+    destruct (close_p4_spec r3) as (Hsp & Ho4 & _). destruct (sp_same_views _ _ Hsp) as (_ & V2 & _ & V4 & _).
+    assert (RI4 : RI (close_p4 r3)).
+    { unfold close_p4. destruct (output_buffer (rsp r3)); [exact RI3|apply consume_output_RI; exact RI3]. }
+    pose proof (into_request_parser_refines (close_p4 r3) RI4) as IR. rewrite Hconv in IR. cbn [absconv] in IR.
+    unfold ainto_request_parser in IR. change (a_boundary (abs (close_p4 r3))) with (is_record_boundary (close_p4 r3)) in IR.
+    rewrite V4 in IR. destruct (is_record_boundary (rsp r3)) eqn:Eb; cbn [negb] in IR; [|discriminate IR].
+    destruct (negb (len (a_out (abs (close_p4 r3))) =? 0)); [discriminate IR|]. injection IR as <-. cbn [st held sk sprem spad].
+    exists false. cbn [rvm].
+    change (a_raw (abs (close_p4 r3))) with (raw_bytes (close_p4 r3)). rewrite V2, Hlog, Hsegs.
+    unfold is_record_boundary in Eb. apply andb_true_iff in Eb. destruct Eb as [Ep Eq]. apply N.eqb_eq in Ep. apply N.eqb_eq in Eq.
+    unfold SQ3 in R4. cbn [abs a_st a_prem a_pad a_raw a_out] in R4. rewrite Ep, Eq in R4.
+    pose proof (epilogue_F _ _ _ _ _ Eep) as HepF. pose proof (epilogue_EC _ _ _ _ _ Eep) as HepE.
+    destruct R4 as [R4m R4j]. split.
+    + unfold Qm in *. apply (Q_pos (kst (sst (rsp r3))) 0 0 false 0 0); [intros x; apply WK_k0|].
+      rewrite app_assoc. apply Q_log; [apply wholeF_app; assumption|apply wholeF_nil|exact HepF|].
+      apply (Q_flush _ _ _ _ (output_buffer (rsp r3)) _ _ _ (output_buffer (rsp r3)) []); [symmetry; apply app_nil_r|exact R4m].
+    + apply (J_close vm3 0 0 _ (output_buffer (rsp r3)) (wlog w2)); [apply (SREL_weak _ _ HS3')|apply EC_mono| |exact R4j].
+      rewrite app_assoc, (EC_app _ ep (wholeF_app _ _ R5 R6) HepF). lia.
+  - exact I.
+  - destruct o; try contradiction; discriminate.
+Qed.
+
+Lemma do_close_hs3 r disc code w : HS3 r w ->
+  match do_close maxc r disc code w with
+  | Ok (inl rp) w' => PS3 rp w' []
+  | Ok (inr _) _ => True
+  | Halt o _ => o <> ODeadlock
+  end.
+Proof.
+  intros H. unfold do_close. pose proof (do_writeable_hs3 r w H) as DW.
+  destruct (do_writeable maxc r w) as [[[k|] r1] w1|o w1]; [| |exact DW].
+  - destruct ((k =? EK_Aborted) && raborted r1); [apply close_tail_hs3; exact DW|exact I].
+  - apply close_tail_hs3; exact DW.
+Qed.
+
+End Layers3.
